@@ -175,7 +175,11 @@ func Build(r *core.Rand, disk *simfs.Disk, root string, cfg Cfg) (*Env, error) {
 		n = 1
 	}
 	repackAt := -1
-	if cfg.Repack && n > 1 {
+	// go-git's object walker (object_walker.go) has no case for a blob reached
+	// through a non-regular tree entry, so RepackObjects/Prune fail with
+	// "unknown object ... blob" on any history that contains a symlink; the
+	// generator therefore never repacks such a history during setup.
+	if cfg.Repack && n > 1 && !cfg.Symlinks {
 		repackAt = r.Range(0, n-2)
 	}
 	sideAt, mergeAt := -1, -1
